@@ -60,6 +60,19 @@ theorem ty_droot {e : Expr} {t : Ty} (h : ty (.droot e) = some t) : ty e = some 
   · rename_i h1; simp only [Option.some.injEq] at h; exact ⟨h1, h.symm⟩
   · cases h
 
+theorem ty_union {l r : Expr} {t : Ty} (h : ty (.union l r) = some t) :
+    ty l = some .path ∧ ty r = some .path ∧ t = .path := by
+  simp only [ty] at h
+  split at h
+  · rename_i h1 h2; simp only [Option.some.injEq] at h; exact ⟨h1, h2, h.symm⟩
+  · cases h
+
+theorem ty_count {e : Expr} {t : Ty} (h : ty (.count e) = some t) : ty e = some .path ∧ t = .num := by
+  simp only [ty] at h
+  split at h
+  · rename_i h1; simp only [Option.some.injEq] at h; exact ⟨h1, h.symm⟩
+  · cases h
+
 theorem ty_cmp {op : Cmp} {l r : Expr} {t : Ty} (h : ty (.cmp op l r) = some t) :
     ty l = some .num ∧ ty r = some .num ∧ t = .bool := by
   simp only [ty] at h
@@ -190,6 +203,17 @@ theorem sem_typed : ∀ (e : Expr) (t : Ty) (f : Focus), ty e = some t → (sem 
       rw [List.mem_map] at hv
       obtain ⟨n, _, rfl⟩ := hv
       exact hasTy_path (ih .path _ h1)
+  | union l r ihl ihr =>
+    intro t f h
+    obtain ⟨h1, h2, rfl⟩ := ty_union h
+    obtain ⟨x, hx⟩ := hasTy_path (ihl .path f h1)
+    obtain ⟨y, hy⟩ := hasTy_path (ihr .path f h2)
+    simp [sem, hx, hy, Val.hasTy]
+  | count e ih =>
+    intro t f h
+    obtain ⟨h1, rfl⟩ := ty_count h
+    obtain ⟨x, hx⟩ := hasTy_path (ih .path f h1)
+    simp [sem, hx, Val.hasTy]
   | cmp op l r ihl ihr =>
     intro t f h
     obtain ⟨h1, h2, rfl⟩ := ty_cmp h
@@ -251,6 +275,11 @@ theorem sem_irrel : ∀ (e : Expr) (f f' : Focus), ty e = some .path → f.item 
     apply List.map_congr_left
     intro d _
     exact ih _ _ h1 rfl
+  | union l r ihl ihr =>
+    intro f f' h hi
+    obtain ⟨h1, h2, _⟩ := ty_union h
+    simp only [sem, ihl f f' h1 hi, ihr f f' h2 hi]
+  | count e _ => intro f f' h; obtain ⟨_, h3⟩ := ty_count h; cases h3
   | cmp op l r _ _ => intro f f' h; obtain ⟨_, _, h3⟩ := ty_cmp h; cases h3
   | and l r _ _ => intro f f' h; obtain ⟨_, _, h3⟩ := ty_and h; cases h3
   | or l r _ _ => intro f f' h; obtain ⟨_, _, h3⟩ := ty_or h; cases h3
@@ -352,6 +381,13 @@ theorem sem_good : ∀ (e : Expr) (f : Focus) (l : List Nat), f.item < a.length 
     split at h
     · simp only [Val.nodes.injEq] at h; subst h; exact good_filter _
     · cases h
+  | union l' r _ _ =>
+    intro f l _ h; simp only [sem] at h
+    split at h
+    · simp only [Val.nodes.injEq] at h; subst h; exact good_filter _
+    · cases h
+  | count e _ =>
+    intro f l _ h; simp only [sem] at h; split at h <;> cases h
   | cmp op l' r _ _ =>
     intro f l _ h; simp only [sem] at h; split at h <;> cases h
   | and l' r _ _ =>
@@ -414,7 +450,7 @@ theorem swfRev_innerStep : ∀ (e : Expr), swfRev (innerStep e) = predAxisRevers
   | .pred e _ => by simp only [innerStep, predAxisReverse]; exact swfRev_innerStep e
   | .step ax t ab => rfl
   | .ctxItem | .parentAbbr | .rootOnly | .num _ | .position | .last => rfl
-  | .slash _ _ | .dslash _ _ | .root _ | .droot _ | .paren _ => rfl
+  | .slash _ _ | .dslash _ _ | .root _ | .droot _ | .paren _ | .union _ _ | .count _ => rfl
   | .cmp _ _ _ | .and _ _ | .or _ _ | .not _ => rfl
 
 theorem predFocus_eq (e : Expr) {l : List Nat} (h : l.Nodup) :
@@ -446,7 +482,7 @@ theorem predFocus_eq (e : Expr) {l : List Nat} (h : l.Nodup) :
       have : predAxisReverse e' = false := by simpa using hr
       rw [this]; exact focusFwd_eq h
   | ctxItem | parentAbbr | rootOnly | num _ | position | last | slash _ _ | dslash _ _ | root _
-  | droot _ | paren _ | cmp _ _ _ | and _ _ | or _ _ | not _ =>
+  | droot _ | paren _ | union _ _ | count _ | cmp _ _ _ | and _ _ | or _ _ | not _ =>
     simp only [nestedRev, Bool.false_eq_true, if_false, selectWithFocus, swfRev, predAxisReverse]
     exact focusFwd_eq h
 
@@ -788,6 +824,31 @@ theorem eval_eq_sem_aux (w : WF m a) : ∀ (e : Expr) (t : Ty) (f : Focus), ty e
         exact ⟨d, hd, hx⟩
       · rintro ⟨d, hd, hx⟩
         exact ⟨_, List.mem_map.2 ⟨d, hd, rfl⟩, hx⟩
+  | union l r ihl ihr =>
+    intro t f h hf hs
+    obtain ⟨h1, h2, _⟩ := ty_union h
+    simp only [safeG, Bool.and_eq_true] at hs
+    obtain ⟨x, hx⟩ := hasTy_path (sem_typed (m := m) (a := a) l .path f h1)
+    obtain ⟨y, hy⟩ := hasTy_path (sem_typed (m := m) (a := a) r .path f h2)
+    have gx := sem_good l f x hf hx
+    have gy := sem_good r f y hf hy
+    simp only [eval, sem, ihl .path f h1 hf hs.1, ihr .path f h2 hf hs.2, hx, hy, Val.nodes.injEq]
+    rw [docOrder_eq _ a.length]
+    · unfold unionSets allNodes
+      apply List.filter_congr
+      intro i _
+      simp [List.contains_iff_mem, Bool.eq_iff_iff]
+    · intro i hi
+      rw [List.mem_append] at hi
+      rcases hi with hi | hi
+      · exact gx.2 i hi
+      · exact gy.2 i hi
+  | count e ih =>
+    intro t f h hf hs
+    obtain ⟨h1, _⟩ := ty_count h
+    simp only [safeG] at hs
+    simp only [eval, sem, ih .path f h1 hf hs]
+    cases sem m a e f <;> rfl
   | cmp op l r ihl ihr =>
     intro t f h hf hs
     obtain ⟨h1, h2, _⟩ := ty_cmp h
